@@ -16,7 +16,7 @@ fn main() {
         let mut ex: Box<dyn Executor> = match stream {
             "time" => Box::new(streams::time::TimeExec),
             "wire" => Box::new(streams::wire::WireExec),
-            "inst" | "bmca" | "port" | "fml" | "c07" | "master" | "view" | "tlv" => Box::new(streams::inst::InstExec::new()),
+            "inst" | "bmca" | "port" | "fml" | "c07" | "master" | "view" | "tlv" | "timed" => Box::new(streams::inst::InstExec::new()),
             "cmp" => Box::new(streams::gen_bmca::CmpExec),
             _ => panic!("unknown stream"),
         };
@@ -61,6 +61,7 @@ fn main() {
         "master" => streams::gen_inst::generate_master(&mut out, &rng, thorough),
         "view" => streams::gen_inst::generate_view(&mut out, &rng, thorough),
         "tlv" => streams::gen_inst::generate_tlv(&mut out, &rng, thorough),
+        "timed" => streams::gen_inst::generate_timed(&mut out, &rng, thorough),
         "cmp" => streams::gen_bmca::generate_cmp(&mut out, &rng, thorough),
         "fml" => streams::gen_fml::generate(&mut out, &rng, thorough),
         "c07" => streams::gen_c07::generate(&mut out, &rng, thorough, &dir),
